@@ -25,6 +25,7 @@ import collections
 import copy
 import dataclasses
 import itertools
+import time
 import warnings
 
 import numpy as np
@@ -1366,9 +1367,16 @@ def gen_archive_add(rng, c):
     return {"arch": k, "dtype": d, "ops": ops}
 
 
-def combos_sliding():
-    return [(d, L, o, rm, bf) for d in DTYPES for L in LAYOUTS for o in ("add", "add_single", "mixed")
-            for (rm, bf) in ((3, 4), (2, 2), (4, 3))] + \
+def combos_sliding(quick):
+    """(dtype x layout x entry point) in full; the (remap_frequency, buffer_capacity) settings are crossed in
+    the thorough tier and rotated in the quick tier."""
+    geo = ((3, 4), (2, 2), (4, 3))
+    base = [(d, L, o) for d in DTYPES for L in LAYOUTS for o in ("add", "add_single", "mixed")]
+    if quick:
+        main = [(d, L, o) + geo[i % 3] for i, (d, L, o) in enumerate(base)]
+    else:
+        main = [(d, L, o, rm, bf) for (d, L, o) in base for (rm, bf) in geo]
+    return main + \
            [(d, L, "tell:" + m, 3, 4) for d in DTYPES for L in LAYOUTS for m in ("batch", "single")]
 
 
@@ -1521,13 +1529,17 @@ def gen_sched(rng, c):
     return {"arch": k, "dtype": d, "sched": s, "add_mode": m, "emitters": EMITTER_SETS[e], "ops": ops}
 
 
-def combos_dqd(kind):
+def combos_dqd(kind, quick):
+    """(call path x normalize_grad x dtype x layout) in full; the second emitter option (grad_opt /
+    measure_gradients) is crossed in the thorough tier and rotated in the quick tier."""
     out = []
+    i = 0
     for via in ("scheduler", "direct"):
         for norm in (True, False):
-            for alt in (True, False):
-                for d in DTYPES:
-                    for L in LAYOUTS:
+            for d in DTYPES:
+                for L in LAYOUTS:
+                    i += 1
+                    for alt in ((i % 2 == 0,) if quick else (True, False)):
                         out.append((kind, via, norm, alt, d, L))
     return out
 
@@ -1585,7 +1597,9 @@ def gen_opt(rng, c):
     return {"opt": o, "dtype": d, "ops": ops}
 
 
-def combos_viz():
+def combos_viz(quick):
+    """every function taking df= x frame class x (sort_archive) ; x dtype in the thorough tier, dtype rotated
+    in the quick tier."""
     out = []
     for d in DTYPES:
         for fr in ("adf", "pdf"):
@@ -1596,6 +1610,9 @@ def combos_viz():
             out.append(("cvt", "cvt_archive_heatmap", False, fr, d))
             out.append(("sba", "sliding_boundaries_archive_heatmap", False, fr, d))
             out.append(("prox", "proximity_archive_plot", False, fr, d))
+    if quick:
+        half = len(out) // 2
+        out = [out[i] if i % 2 == 0 else out[half + i] for i in range(half)]
     return out
 
 
@@ -1669,17 +1686,17 @@ def strata(ctx):
     return [
         # name, combos, generator, states per combo (quick, thorough), time budget (quick, thorough)
         ("archive.add", combos_archive_add(), gen_archive_add, (1, 8), (4, 50)),
-        ("sliding.add", combos_sliding(), gen_sliding, (1, 6), (8, 60)),
+        ("sliding.add", combos_sliding(ctx.quick), gen_sliding, (1, 6), (8, 60)),
         ("archive.read", combos_archive_read(), gen_archive_read, (1, 6), (5, 70)),
         ("archive.best_elite", combos_best(), gen_best, (3, 30), (2, 20)),
         ("archive.iter", combos_iter(), gen_iter, (3, 30), (2, 20)),
         ("store", combos_store(), gen_store, (1, 8), (3, 30)),
         ("scheduler.tell", combos_sched(ctx.quick), gen_sched, (1, 5), (8, 90)),
-        ("dqd.arborescence", combos_dqd("ga"), gen_dqd, (1, 6), (4, 40)),
-        ("dqd.operator", combos_dqd("go"), gen_dqd, (1, 6), (3, 40)),
+        ("dqd.arborescence", combos_dqd("ga", ctx.quick), gen_dqd, (1, 6), (4, 40)),
+        ("dqd.operator", combos_dqd("go", ctx.quick), gen_dqd, (1, 6), (3, 40)),
         ("emitter.tell", et_combos, lambda rng, c: gen_emitter_tell(rng, c, et_specs), (1, 6), (3, 40)),
         ("opt.step", combos_opt(), gen_opt, (2, 20), (1, 10)),
-        ("visualize.df", combos_viz(), gen_viz, (1, 4), (6, 80)),
+        ("visualize.df", combos_viz(ctx.quick), gen_viz, (1, 4), (6, 80)),
         ("helpers", combos_helpers(), gen_helpers, (1, 5), (3, 30)),
         ("readpaths", combos_readpaths(), gen_readpaths, (3, 30), (2, 30)),
     ]
@@ -1710,8 +1727,10 @@ def run(ctx):
         for name, combos, gen, states, budget in strata(ctx):
             n = len(combos) * (states[0] if ctx.quick else states[1])
             ctx.extra.setdefault("combinations", {})[name] = len(combos)
+            t0 = time.time()
             ctx.explore(name, enumerating(combos, gen), run_case, ctx.n(n, n), nontrivial=nontrivial, max_fail=1,
                         time_budget=budget[0] if ctx.quick else budget[1])
+            ctx.extra.setdefault("stratum_wall_s", {})[name] = round(time.time() - t0, 2)
             stopped = stopped or f"{name}:time-budget-stop" in ctx.dist
         L = lean()
         ctx.extra["lean_verdicts_asked"] = len(L.cache)
